@@ -9,6 +9,7 @@ import (
 	"time"
 
 	"github.com/jhalter/mobius/hotline"
+	"golang.org/x/crypto/bcrypt"
 )
 
 func init() { register("C04", "Corr.Run_C04", genC04) }
@@ -19,7 +20,10 @@ type c04Acct struct {
 }
 
 // one connection attempt: the whole byte stream is written (as far as the server reads it), then the peer closes
-func c04Attempt(env *Env, observer *WireClient, obsSeen *int, addr string, stream []byte) [][]byte {
+// how long the line must stay silent before a connection that is still open is taken to be waiting for input
+var quietFor = 400 * time.Millisecond
+
+func c04Attempt(env *Env, observer *WireClient, obsSeen *int, addr string, stream []byte, expectReplies int) [][]byte {
 	before := snapshot(env.Cfg)
 	w := env.Connect(addr)
 	wrote := make(chan struct{})
@@ -28,20 +32,51 @@ func c04Attempt(env *Env, observer *WireClient, obsSeen *int, addr string, strea
 		w.c.SetWriteDeadline(time.Now().Add(4 * time.Second))
 		w.c.Write(stream)
 	}()
-	// wait until the server is done with the connection, or everything was written and the line is quiet
-	dl := time.Now().Add(4 * time.Second)
-	written := false
+	// wait until the server is done with the connection, or it has registered the peer as logged in (then: until
+	// the replies to the appended keep-alives are there), or - everything written - nothing happens for a while
+	// (the server is waiting for more input)
+	isRegistered := func() bool {
+		for _, cc := range env.Srv.ClientMgr.List() {
+			if cc.RemoteAddr == addr && cc.Account != nil {
+				return true
+			}
+		}
+		return false
+	}
+	emptyReplies := func() int {
+		n := 0
+		fs, _ := w.Frames()
+		for _, f := range fs {
+			if f.Reply == 1 && f.Err == 0 && len(f.Fields) == 0 {
+				n++
+			}
+		}
+		return n
+	}
+	dl := time.Now().Add(5 * time.Second)
+	var writtenAt time.Time
 	for time.Now().Before(dl) {
 		select {
 		case <-w.srvDone:
 			dl = time.Now()
 			continue
-		case <-wrote:
-			written = true
 		default:
 		}
-		if written {
-			w.WaitQuiet(40*time.Millisecond, 1500*time.Millisecond)
+		if writtenAt.IsZero() {
+			select {
+			case <-wrote:
+				writtenAt = time.Now()
+			default:
+			}
+		}
+		if isRegistered() {
+			for d2 := time.Now().Add(3 * time.Second); time.Now().Before(d2) && emptyReplies() < expectReplies; {
+				time.Sleep(300 * time.Microsecond)
+			}
+			w.WaitQuiet(20*time.Millisecond, 500*time.Millisecond)
+			break
+		}
+		if !writtenAt.IsZero() && time.Since(writtenAt) > quietFor {
 			break
 		}
 		time.Sleep(200 * time.Microsecond)
@@ -131,6 +166,7 @@ func genC04(cs *CaseSet, rng *Rng, tier string, dir string) {
 	nEnv, perEnv := 12, 26
 	if tier == "thorough" {
 		nEnv, perEnv = 48, 60
+		quietFor = 800 * time.Millisecond // 12 servers share the cores
 	}
 	var all hotline.AccessBitmap
 	for i := range all {
@@ -283,6 +319,28 @@ func genC04(cs *CaseSet, rng *Rng, tier string, dir string) {
 				if rng.Bool() {
 					fields = append(fields, RField{160, []byte{0, 0xbe}})
 				}
+				// would these credentials open an account?  (then only keep-alives may follow: what a logged-in peer's
+				// other requests do is not this property's subject)
+				effLogin, sentPw := "guest", []byte(nil)
+				for _, f := range fields {
+					if f.ID == 105 {
+						if l := string(obfuscate(f.Data)); l != "" {
+							effLogin = l
+						}
+						break
+					}
+				}
+				for _, f := range fields {
+					if f.ID == 106 {
+						sentPw = f.Data
+						break
+					}
+				}
+				if acc := env.Srv.AccountManager.Get(effLogin); acc != nil && bcrypt.CompareHashAndPassword([]byte(acc.Password), sentPw) == nil {
+					if want == "bad" || want == "case-variant" {
+						want = "good-by-coincidence"
+					}
+				}
 				first := refEncode(typ, id(), fields...)
 				shape := "well-formed"
 				switch rng.Intn(16) {
@@ -306,7 +364,7 @@ func genC04(cs *CaseSet, rng *Rng, tier string, dir string) {
 				var suffix []byte
 				nSuf := rng.Intn(4)
 				for i := 0; i < nSuf; i++ {
-					if want == "good" || want == "guest" || want == "nul-variant" {
+					if want != "bad" && want != "case-variant" {
 						suffix = append(suffix, keepalive()...)
 					} else {
 						suffix = append(suffix, effectful()...)
@@ -314,7 +372,11 @@ func genC04(cs *CaseSet, rng *Rng, tier string, dir string) {
 				}
 				stream := append(append(append([]byte{}, hs...), first...), suffix...)
 				addr := fmt.Sprintf("10.4.%d.%d:%d", 1+e, 1+k%250, 2000+k)
-				ob := c04Attempt(env, observer, &obsSeen, addr, stream)
+				expect := 0
+				if want != "bad" && want != "case-variant" {
+					expect = nSuf
+				}
+				ob := c04Attempt(env, observer, &obsSeen, addr, stream, expect)
 				cs.Count("handshake:" + hsKind)
 				cs.Count("login:" + want)
 				cs.Count("shape:" + shape)
